@@ -17,6 +17,7 @@
   the receiver's acceptance window) is inherent to 16-bit numbering; see notes/C07.md.
 -/
 import SA.Proofs.Queue
+import SA.Model.DnsExchange
 namespace SA.Queue
 
 /-- the source facts the proofs rely on (all regenerated: SA.Gen.c07*) -/
@@ -106,6 +107,59 @@ example : ¬ WellBounded Cfg.gen 1 10 10 [.inject true 5 [1]] := by decide
 
 end SA.Queue
 
+namespace SA.DnsExchange
+
+theorem loop_absorbs :
+    ∀ (k : Nat) (fs : List Fate) (left calls : Nat) (dlv : Bool), k < left → k ≤ fs.length →
+      (∀ f ∈ fs.take k, f.isLoss = true) → (fs[k]? = none ∨ fs[k]? = some .ok) →
+      loop 1 left fs calls dlv = ⟨calls + k + 1, true, true⟩ := by
+  intro k
+  induction k with
+  | zero =>
+    intro fs left calls dlv hl _ _ hk
+    obtain ⟨l, rfl⟩ : ∃ l, left = l + 1 := ⟨left - 1, by omega⟩
+    cases fs with
+    | nil => simp [loop]
+    | cons f fs => simp at hk; subst hk; simp [loop]
+  | succ k ih =>
+    intro fs left calls dlv hl hlen hloss hk
+    obtain ⟨l, rfl⟩ : ∃ l, left = l + 1 := ⟨left - 1, by omega⟩
+    cases fs with
+    | nil => simp at hlen
+    | cons f fs =>
+      have hf : f.isLoss = true := hloss f (by simp)
+      have hrest : ∀ g ∈ fs.take k, g.isLoss = true := fun g hg => hloss g (by simp [hg])
+      have hk' : fs[k]? = none ∨ fs[k]? = some .ok := by simpa using hk
+      have hl0 : l ≠ 0 := by omega
+      have := ih fs l (calls + 1) (dlv || f == .al) (by omega) (by simpa using hlen) hrest hk'
+      cases f <;> simp_all [loop, recognised, Fate.isLoss] <;> omega
+
+/-- **loss_absorbed**: with the regenerated facts (5 tries, timeouts recognised through the wrapping),
+    up to 4 consecutive lost exchanges of any kind followed by a delivered one are absorbed by
+    retransmission: SendAndReceive (hence Write) succeeds after k+1 queries and the fragment is delivered. -/
+theorem C07_loss_absorbed (fs : List Fate) (k : Nat) (hk : k ≤ 4) (hlen : k ≤ fs.length)
+    (hloss : ∀ f ∈ fs.take k, f.isLoss = true) (hok : fs[k]? = none ∨ fs[k]? = some .ok) :
+    sendAndReceive Gen.c07TimeoutTest Gen.c07Tries fs = ⟨k + 1, true, true⟩ := by
+  have h1 : Gen.c07TimeoutTest = 1 := by decide
+  have h2 : Gen.c07Tries = 5 := by decide
+  unfold sendAndReceive
+  rw [h1, h2]
+  have := loop_absorbs k fs 5 0 false (by omega) hlen hloss hok
+  simpa using this
+
+/-- kernel-checked counter-example for the comparison the tree had before the repair
+    (`err == smux.ErrTimeout`, fact value 0): one lost query fails the Write at the first try. -/
+theorem C07_witness_loss_not_absorbed :
+    sendAndReceive 0 5 [.ql, .ok] = ⟨1, false, false⟩ ∧ sendAndReceive 0 5 [.al, .ok] = ⟨1, false, true⟩ := by
+  decide
+
+example : sendAndReceive Gen.c07TimeoutTest Gen.c07Tries [.ql, .al, .st, .ql, .ok] = ⟨5, true, true⟩ := by decide
+example : (sendAndReceive Gen.c07TimeoutTest Gen.c07Tries [.ql, .al, .st, .ql, .al, .ok]).ok = false := by decide
+
+end SA.DnsExchange
+
 #print axioms SA.Queue.C07_safety
 #print axioms SA.Queue.C07_write_ok_delivered
 #print axioms SA.Queue.C07_wrap
+#print axioms SA.DnsExchange.C07_loss_absorbed
+#print axioms SA.DnsExchange.C07_witness_loss_not_absorbed
